@@ -334,7 +334,7 @@ func pluginSites(r *Run, it Item) {
 		r.Errors = append(r.Errors, key+": no contract found for a function of the plan")
 		return
 	}
-	fr := r.Eng.verifyFuncOpts(key, RunOpts{Trace: true, Depth: 0, Over: sitesOver()})
+	fr := r.Eng.verifyFuncOpts(key, RunOpts{Trace: true, Depth: it.Depth, Over: sitesOver()})
 	r.results[key] = fr
 	if fr.Err != "" {
 		r.Errors = append(r.Errors, key+": "+fr.Err)
